@@ -137,6 +137,8 @@ def case_task(task):
                 if rlo is not None and max(float(np.max(rhi[:, -1] - rlo[:, -1])),
                                            float(np.max(logsumexp(rhi, axis=1) - logsumexp(rlo, axis=1)))) > 1e-10:
                     part.count("skipped_outside_underflow_window")
+                    if c.get("big"):
+                        part.count("big_trees_skipped_outside_underflow_window")
                     continue
                 _R, root = refmodel.exact_node_vectors(f, values, (D, G))
                 ref_tree = None
@@ -164,7 +166,9 @@ def case_task(task):
                             if not (t == ref_tree) or hash(t) != hash(ref_tree):
                                 part.violation("the same tree built through a different history does not compare / "
                                                "hash equal", dict(case, history=label))
-                    part.see("%s|a%s|op%s" % (gen.key_str(f.key()), alpha, op))
+                    part.see("%s|a%s|op%s" % (gen.key_str(f.key()) if not c.get("big") else "big%d" % c["id"], alpha, op))
+                    if c.get("big"):
+                        part.count("big_trees_evaluated")
                 built.append((f.key(), ref_tree))
                 if len(part.samples) < 2:
                     part.sample(dict(case, alphas=c["alphas"], reference=[ref_p, ref_one]))
@@ -189,7 +193,7 @@ def run(ctx):
     ctx.rule = ("every forest over <=3 points (<=4 thorough) x every outlier subset x alpha in {0.05,0.4,1,3,50} x outlier "
                 "prior in {0,1e-3,0.2} (with cluster sizes 1-3) x up to 7 construction histories (post-order, shuffled "
                 "siblings, incremental with dict hops, relabelled, from_dict, prune-regraft detour, data-point detour); "
-                "random trees to 12 points, D<=3; distinct = (canonical tree, alpha, outlier prior)")
+                "random trees to 12 points, D<=3, and trees of 258-330 clones; distinct = (canonical tree, alpha, outlier prior)")
     ctx.assumptions = ["root-count penalty normaliser -(R-1)log1000 - log((1-1000^-R)/(1-1/1000)) frozen from the pinned code",
                        "cases whose data term (last grid entry / row log-sum of the root vector) is not inside the C02 underflow window (band > 1e-10) are skipped",
                        "outlier prior terms apply to a point only when its outlier probability is non-zero"]
@@ -217,7 +221,23 @@ def run(ctx):
                       "kind": ["moderate", "smooth", "twins", "flat", "scales"][i % 5], "alphas": [alphas[i % 5], alphas[(i + 2) % 5]],
                       "forests": [f.describe()], "cluster_sizes": bool(i % 4 == 0)})
         cid += 1
-    tasks = [{"seed": ctx.seed, "cases": cases[i::32]} for i in range(32)]
+    # trees with more than 256 clones (sizes beyond one byte)
+    bigs = []
+    for i in range(6 if quick else 64):
+        n = int(rng.integers(280, 330))
+        op = [0.0, 0.01][i % 2]
+        wide = i % 6 == 5  # wide sibling sets stay inside the underflow window only with flat data
+        f = gen.random_forest(rng, n, max_children=300 if wide else [8, 2, 4][i % 3], p_outlier=0.01 if op > 0 else 0.0,
+                              shape="star" if wide else [None, "chain", "bushy"][i % 3], n_tops=40 if wide else [1, 3, 2][i % 3],
+                              min_clones=258)
+        bigs.append({"id": cid, "n": n, "D": 1 + i % 2, "G": [3, 5][i % 2], "outlier_prior": op,
+                     "kind": "flat" if wide else ["smooth", "flat", "moderate", "twins"][i % 4], "alphas": [alphas[i % 5]],
+                     "forests": [f.describe()], "cluster_sizes": bool(i % 4 == 0), "big": True})
+        cid += 1
+    tasks = [{"seed": ctx.seed, "cases": [b]} for b in bigs]
+    tasks += [{"seed": ctx.seed, "cases": cases[i::32]} for i in range(32)]
     ctx.map("checks.c03", "case_task", tasks, timeout=3000)
+    if ctx.counters.get("big_trees_evaluated", 0) < 3:
+        ctx.inconc("big trees not evaluated (all outside the underflow window?)")
     if ctx.counters.get("evaluations", 0) < 500:
         ctx.inconc("too few density evaluations")
